@@ -83,6 +83,16 @@ var sqlSeq int
 
 func newRepo(kind string) (asset.Repository, func(), error) {
 	switch kind {
+	case "factory-memory":
+		r, err := asset.NewRepository(asset.InMemoryRepositoryBuilderName, "")
+		return r, func() {}, err
+	case "factory-filesystem":
+		dir, err := os.MkdirTemp("", "verif-c10-")
+		if err != nil {
+			return nil, nil, err
+		}
+		r, err := asset.NewRepository(asset.FileSystemRepositoryBuilderName, dir)
+		return r, func() { os.RemoveAll(dir) }, err
 	case "memory":
 		return asset.NewInMemoryRepository(), func() {}, nil
 	case "filesystem":
@@ -166,6 +176,10 @@ func c10History(cc *run.Case, kind string, nops, hidx int) bool {
 			for i := range batch {
 				d += r.Pick(0, 1, 1, 1, 2, 5) // equal consecutive dates included
 				batch[i] = asset.Snapshot{Date: day0.AddDate(0, 0, d), Open: randValue(r), High: randValue(r), Low: randValue(r), Close: randValue(r), Volume: randValue(r)}
+				if r.Intn(7) == 0 { // a row of maximal width: every field needs 17 digits, a sign and a 3-digit exponent
+					long := func() float64 { return -math.Float64frombits(r.U64()&^(0x7ff<<52) | uint64(r.Pick(r.Range(1, 600), r.Range(1500, 2046)))<<52) }
+					batch[i].Open, batch[i].High, batch[i].Low, batch[i].Close, batch[i].Volume = long(), long(), long(), long(), long()
+				}
 				c := batch[i]
 				ptrs[i] = &c
 				op.Dates = append(op.Dates, batch[i].Date.Format("2006-01-02"))
@@ -329,7 +343,11 @@ func c10(ctx *run.Ctx) {
 	nops := ctx.Pick(12, 40)
 	per := 10
 	for b := 0; b < nhist/per; b++ {
-		for _, kind := range repoKinds {
+		kinds := repoKinds
+		if b%4 == 3 { // the same histories on repositories obtained through asset.NewRepository
+			kinds = []string{"factory-memory", "factory-filesystem"}
+		}
+		for _, kind := range kinds {
 			b, kind := b, kind
 			ctx.Case(fmt.Sprintf("%s/batch%d", kind, b), func(cc *run.Case) {
 				for h := 0; h < per; h++ {
@@ -342,4 +360,5 @@ func c10(ctx *run.Ctx) {
 			})
 		}
 	}
+	c10Concurrent(ctx, ctx.Pick(6, 150))
 }
